@@ -15,6 +15,8 @@ pub struct Io {
     /// explicit plan (replay / minimisation); overrides seed
     pub plan: Option<String>,
     pub log: Option<std::path::PathBuf>,
+    /// stdout is this regular file instead of a pipe
+    pub stdout_file: Option<std::path::PathBuf>,
 }
 
 #[derive(Clone, Debug)]
@@ -42,10 +44,21 @@ pub fn run(bin: &Path, argv: &[String], hash_seed: u64, io: &Io) -> std::io::Res
         c.env("SIMSEAM_IO_LOG", l);
     }
     c.stdin(Stdio::null());
-    c.stdout(Stdio::piped());
+    match &io.stdout_file {
+        Some(p) => {
+            c.stdout(Stdio::from(std::fs::File::create(p)?));
+        }
+        None => {
+            c.stdout(Stdio::piped());
+        }
+    }
     c.stderr(Stdio::piped());
     let out = c.output()?;
-    Ok(ChildResult { status: out.status.code(), stdout: out.stdout, stderr: out.stderr })
+    let stdout = match &io.stdout_file {
+        Some(p) => std::fs::read(p)?,
+        None => out.stdout,
+    };
+    Ok(ChildResult { status: out.status.code(), stdout, stderr: out.stderr })
 }
 
 /// Fired faults from the shim log: (plan string, per-kind counts, intercepted reads, writes)
